@@ -187,6 +187,8 @@ def rand_pfile(rng, rich=True):
         P.pkg[1] = 'dep'
     if rich and rng.random() < 0.3:
         P.cpkg[0] = rng.choice(['cpk', 'My.c_pkg', 'X'])
+    if rich and use_dep and rng.random() < 0.5:
+        P.cpkg[1] = rng.choice(['DepC', 'other.c_name', 'Y'])       # the imported file has its own C prefix
     # file options
     fo = P.file_opts[0]
     if rich:
@@ -417,7 +419,11 @@ def proto_texts(P):
             for sname, methods in P.services:
                 L.append('service %s {' % sname)
                 for mn, a, b in methods:
-                    L.append('  rpc %s (%s) returns (%s);' % (mn, P.proto_ref(P.msg_full(a)), P.proto_ref(P.msg_full(b))))
+                    # streaming rpcs are ordinary methods for this generator (same struct slot, same stub, same index)
+                    h = hash((sname, mn)) if False else (len(sname) * 7 + len(mn) * 3 + a + 2 * b)
+                    cs_ = 'stream ' if h % 5 == 0 else ''
+                    ss_ = 'stream ' if h % 3 == 0 else ''
+                    L.append('  rpc %s (%s%s) returns (%s%s);' % (mn, cs_, P.proto_ref(P.msg_full(a)), ss_, P.proto_ref(P.msg_full(b))))
                 L.append('}')
         out[fname] = '\n'.join(L) + '\n'
     return out
@@ -516,6 +522,28 @@ def corpus_pfiles():
         P.explicit_packed = {(0, i): (None if i % 3 == 2 else (i % 3 == 1)) for i in range(len(rep))}
         P.services = [('Zoo', [('Zebra', 0, 1), ('Ant', 1, 0), ('Mole', 0, 0), ('Bee', 1, 1)])]
         out.append(('matrix%d' % syntax, P))
+    # every tricky default literal, and numeric defaults at the extremes
+    P = PFile()
+    flds = []
+    n = 1
+    for b in pbgen.TRICKY_STR:
+        flds.append(Field('s%d' % n, n, L_OPT, T_STRING, dflt=('S', b))); n += 1
+    for b in pbgen.TRICKY_BIN:
+        flds.append(Field('b%d' % n, n, L_OPT, T_BYTES, dflt=('B', b))); n += 1
+    for t, v in ((T_INT32, 0x80000000), (T_INT32, 0x7fffffff), (T_SINT32, 0xffffffff), (T_SFIXED32, 0x80000000),
+                 (T_INT64, 0x8000000000000000), (T_INT64, 0x7fffffffffffffff), (T_UINT64, 0xffffffffffffffff),
+                 (T_UINT32, 0xffffffff), (T_FIXED64, 0xffffffffffffffff), (T_SINT64, 0x8000000000000000),
+                 (T_FLOAT, 0x4b800001), (T_FLOAT, 0x80000000), (T_FLOAT, 0x00000001), (T_FLOAT, 0x7f7fffff),
+                 (T_DOUBLE, 0x3fb999999999999a), (T_DOUBLE, 0x8000000000000000), (T_DOUBLE, 0x0000000000000001),
+                 (T_DOUBLE, 0x7fefffffffffffff), (T_DOUBLE, 0x4340000000000001), (T_BOOL, 1), (T_ENUM, 0xfffffffb)):
+        flds.append(Field('n%d' % n, n, L_OPT, t, dflt=('V', v))); n += 1
+    P.sch = Schema([Msg('Dflts', flds, syntax=2)], 2)
+    P.enums = [PEnumDef('Color', [('C_ZERO', 0), ('C_NEG', -5), ('C_BIG', 2147483647), ('C_MIN', -2147483648), ('C_ONE', 1)])]
+    P.field_enum = {(0, i): 0 for i, f in enumerate(flds) if f.type == T_ENUM}
+    P.parent = {0: None}
+    P.infile = {0: 0}
+    P.decl = {0: list(range(len(flds)))}
+    out.append(('defaults', P))
     return out
 
 
